@@ -84,7 +84,10 @@ fn parts(id: &'static str, tier: Tier, seed: u64) -> Vec<Part> {
             Part { rule: props_misc::C08_PLANT_RULE.to_string(), run: Box::new(|ctx, acc| props_misc::run_c08_planted(ctx, acc)) },
             e3_part(id),
         ],
-        "C15" => vec![e3_part(id)],
+        "C15" => vec![
+            e3_part(id),
+            Part { rule: props_e3::STRESS_MIXED_RULE.to_string(), run: Box::new(|ctx, acc| props_e3::run_stress_mixed(ctx, acc)) },
+        ],
         "C04" => vec![
             e3_part(id),
             Part { rule: props_e3::STRESS_SHARED_RULE.to_string(), run: Box::new(|ctx, acc| props_e3::run_stress_shared(ctx, acc, true, false)) },
@@ -174,7 +177,7 @@ fn replay_case(id: &'static str, engine: &str, case: serde_json::Value) -> R<Cas
         "E2F" => props_e2::replay_c14(case),
         "E3" => props_e3::replay_e3(id, case),
         "E3E" => props_e3::replay_e3_enum(id, case),
-        "STRESS-R" | "STRESS-L" | "STRESS-D" => props_e3::replay_stress(engine, case),
+        "STRESS-R" | "STRESS-L" | "STRESS-D" | "STRESS-M" => props_e3::replay_stress(engine, case),
         "C11" => props_c11::replay_c11(case),
         "C08P" => props_misc::replay_c08_planted(case),
         "C18X" => props_misc::replay_c18x(case),
